@@ -182,7 +182,10 @@ class Ctx:
         seen = 0
         import glob
         for old in glob.glob(os.path.join(REPLAY, '%s-%s-*.json' % (self.pid, self.tier))):
-            os.remove(old)
+            try:
+                os.remove(old)
+            except FileNotFoundError:          # another run of the same check removed it first
+                pass
         for i, v in enumerate(self.violations):
             if i >= int(os.environ.get('VERIF_MAX_REPLAYS', '25')):
                 break
